@@ -118,26 +118,3 @@ pub proof fn lemma_lv_single(s: Seq<u64>, n: nat)
         assert((s[n - 1] as nat) * pow2(64 * (n - 1) as nat) == 0) by(nonlinear_arith) requires s[n - 1] == 0;
     }
 }
-
-// lv(s, n) == s[0] (mod B)
-pub proof fn lemma_lv_low_limb(s: Seq<u64>, n: nat)
-    requires 1 <= n <= s.len()
-    ensures (lv(s, n) as int) % B == s[0] as int
-    decreases n
-{
-    lemma_pow2_64();
-    if n == 1 {
-        lemma2_to64();
-        assert(lv(s, 1) == lv(s, 0) + (s[0] as nat) * pow2(0));
-        assert((s[0] as nat) * 1 == s[0] as nat) by(nonlinear_arith);
-        lemma_small_mod(s[0] as nat, B as nat);
-    } else {
-        lemma_lv_low_limb(s, (n - 1) as nat);
-        let w = pow2(64 * (n - 1) as nat);
-        lemma_pow2_adds(64, (64 * (n - 1) - 64) as nat);
-        let h = pow2((64 * (n - 1) - 64) as nat);
-        let t = (s[n - 1] as nat) * w;
-        assert(t as int == B * ((s[n - 1] as int) * h as int)) by(nonlinear_arith) requires t == (s[n - 1] as nat) * w, w as int == B * h as int;
-        lemma_mod_multiples_vanish((s[n - 1] as int) * h as int, lv(s, (n - 1) as nat) as int, B);
-    }
-}
